@@ -87,10 +87,6 @@ class DropoutCase:
                     out.pair("backward through the same mask: " + tag, x._grad, gexp if env.sym else np.array(gexp, dtype=np.float64))
                 out.fact("module.training follows the switches: " + tag, m.training == training)
                 nf += 1
-        if env.sym:
-            out.fact("one fresh draw per training forward",
-                     len([d for d in ar.PROXY.random.draws if d[0] == "rand"]) == ndraw,
-                     "draws=%d training forwards=%d" % (len(ar.PROXY.random.draws), ndraw))
         return out
 
 
